@@ -26,6 +26,7 @@ import (
 	"errors"
 	"fmt"
 	"io/fs"
+	"crypto/x509/pkix"
 	"math/big"
 	"math/rand"
 	"os"
@@ -49,7 +50,12 @@ func init() { register("C18", runC18) }
 
 type c18Item struct {
 	Key  string `json:"key"`
-	Kind string `json:"kind"` // dir | cert | staple | staple0 | lastclean | lastclean_notls | raw
+	Kind string `json:"kind"` // dir | cert | bundle | staple | staple0 | lastclean | lastclean_notls | raw
+	// bundle: a .crt file with several PEM blocks. Text = layout: "leaf+int" (leaf, then an intermediate), "int+leaf"
+	// (order swapped), "leaf+int+int", "leaf+key" (a PRIVATE KEY block after the leaf), "text+leaf" (text before the
+	// first block), "key+leaf" (a non-certificate block first). Off = NotAfter-now of the leaf, Off2 = of the
+	// intermediate(s). pem.Decode yields the FIRST block: that one decides (certmagic stores the leaf first)
+	Off2 int64 `json:"off2,omitempty"`
 	Off  int64  `json:"off,omitempty"`  // cert: NotAfter-now (s); staple: NextUpdate-now (s); lastclean: Timestamp-now (s)
 	Text string `json:"text,omitempty"` // raw: contents; lastclean: instance id
 	Why  string `json:"why,omitempty"`  // generator's label (histogram only)
@@ -331,7 +337,10 @@ func c18NewMat() *c18Mat {
 }
 
 func (m *c18Mat) cert(name string, notAfter time.Time) []byte {
-	nb := notAfter.Add(-90 * 24 * time.Hour)
+	return m.certNB(name, notAfter.Add(-90*24*time.Hour), notAfter)
+}
+
+func (m *c18Mat) certNB(name string, nb, notAfter time.Time) []byte {
 	chain, _, _, err := m.ca.Leaf(doubles.LeafOpts{Names: []string{name}, NotBefore: nb, NotAfter: notAfter, Pub: m.pub})
 	if err != nil {
 		panic(err)
@@ -339,8 +348,65 @@ func (m *c18Mat) cert(name string, notAfter time.Time) []byte {
 	return chain
 }
 
-func (m *c18Mat) staple(nextUpdate time.Time, withNext bool) []byte {
+// interm makes an intermediate-like CA certificate with the given NotAfter (signed by the harness CA)
+func (m *c18Mat) interm(notAfter time.Time) []byte {
+	tpl := &x509.Certificate{SerialNumber: big.NewInt(time.Now().UnixNano()), Subject: pkix.Name{CommonName: "C18 old intermediate"},
+		NotBefore: notAfter.Add(-5 * 365 * 24 * time.Hour), NotAfter: notAfter, IsCA: true, BasicConstraintsValid: true,
+		KeyUsage: x509.KeyUsageCertSign}
+	der, err := x509.CreateCertificate(crand.Reader, tpl, m.ca.Cert, m.pub, m.ca.Key)
+	if err != nil {
+		panic(err)
+	}
+	return pem.EncodeToMemory(&pem.Block{Type: "CERTIFICATE", Bytes: der})
+}
+
+// leafOnly is the leaf's PEM block alone (doubles.CA.Leaf appends the CA certificate)
+func (m *c18Mat) leafOnly(name string, notAfter time.Time) []byte {
+	chain := m.cert(name, notAfter)
+	blk, _ := pem.Decode(chain)
+	return pem.EncodeToMemory(blk)
+}
+
+func (m *c18Mat) bundle(it c18Item, now time.Time) []byte {
+	leaf := m.leafOnly(c18SiteName(it.Key), now.Add(time.Duration(it.Off)*time.Second))
+	in := m.interm(now.Add(time.Duration(it.Off2) * time.Second))
+	keyBlk := pem.EncodeToMemory(&pem.Block{Type: "PRIVATE KEY", Bytes: []byte("not really a key")})
+	switch it.Text {
+	case "leaf+int":
+		return append(leaf, in...)
+	case "int+leaf":
+		return append(in, leaf...)
+	case "leaf+int+int":
+		return append(append(leaf, in...), m.interm(now.Add(time.Duration(it.Off2-86400)*time.Second))...)
+	case "leaf+key":
+		return append(append(leaf, keyBlk...), []byte("trailing text\n")...)
+	case "text+leaf":
+		return append([]byte("Bag Attributes\n    friendlyName: exported\n"), append(leaf, in...)...)
+	case "key+leaf":
+		return append(keyBlk, leaf...)
+	}
+	panic("unknown bundle layout " + it.Text)
+}
+
+func (m *c18Mat) staple(nextUpdate time.Time, withNext bool) []byte { return m.stapleV(nextUpdate, withNext, "") }
+
+// stapleV: variant = what else the response says; only NextUpdate decides whether a staple is stale
+// ("revoked", "unknown": certificate status; "recent", "future_this": ThisUpdate an hour ago / in an hour instead of
+// 500 days ago; "withcert": the responder's certificate is embedded)
+func (m *c18Mat) stapleV(nextUpdate time.Time, withNext bool, variant string) []byte {
 	tpl := ocsp.Response{Status: ocsp.Good, SerialNumber: big.NewInt(4242), ThisUpdate: time.Now().Add(-500 * 24 * time.Hour)}
+	switch variant {
+	case "revoked":
+		tpl.Status, tpl.RevokedAt, tpl.RevocationReason = ocsp.Revoked, time.Now().Add(-24*time.Hour), ocsp.KeyCompromise
+	case "unknown":
+		tpl.Status = ocsp.Unknown
+	case "recent":
+		tpl.ThisUpdate = time.Now().Add(-time.Hour)
+	case "future_this":
+		tpl.ThisUpdate = time.Now().Add(time.Hour)
+	case "withcert":
+		tpl.Certificate = m.ca.Cert
+	}
 	if withNext {
 		tpl.NextUpdate = nextUpdate
 	}
@@ -366,13 +432,24 @@ func c18SiteName(key string) string {
 func (m *c18Mat) bytesOf(it c18Item, now time.Time) []byte {
 	switch it.Kind {
 	case "cert":
+		if it.Off2 != 0 { // NotBefore chosen: a certificate that is not valid yet, or a very long-lived one
+			return m.certNB(c18SiteName(it.Key), now.Add(time.Duration(it.Off2)*time.Second), now.Add(time.Duration(it.Off)*time.Second))
+		}
 		return m.cert(c18SiteName(it.Key), now.Add(time.Duration(it.Off)*time.Second))
+	case "bundle":
+		return m.bundle(it, now)
 	case "staple":
-		return m.staple(now.Add(time.Duration(it.Off)*time.Second), true)
+		return m.stapleV(now.Add(time.Duration(it.Off)*time.Second), true, it.Text)
 	case "staple0":
 		return m.staple(time.Time{}, false)
 	case "lastclean":
 		b, _ := json.Marshal(map[string]any{"tls": map[string]any{"timestamp": now.Add(time.Duration(it.Off) * time.Second), "instance_id": it.Text}})
+		return b
+	case "lastclean_multi": // further entries beside "tls" (Off2 = their time stamp): only "tls" counts
+		b, _ := json.Marshal(map[string]any{
+			"tls":     map[string]any{"timestamp": now.Add(time.Duration(it.Off) * time.Second), "instance_id": it.Text},
+			"storage": map[string]any{"timestamp": now.Add(time.Duration(it.Off2) * time.Second), "instance_id": "someone-else"},
+			"aaa":     map[string]any{"timestamp": now.Add(time.Duration(it.Off2) * time.Second)}})
 		return b
 	case "lastclean_notls":
 		return []byte(`{"other":{"timestamp":"2020-01-01T00:00:00Z"}}`)
@@ -1168,13 +1245,59 @@ func (g *c18Gen) site(items *[]c18Item, hist func(string), backend, issuer, site
 	add := func(k, kind string, off int64, text, why string) {
 		*items = append(*items, c18Item{Key: k, Kind: kind, Off: off, Text: text, Why: why})
 	}
-	kind := g.pick("valid", "expired_lt_grace", "expired_ge_grace", "expired_ge_grace", "malformed", "crt_only", "key_only", "foreign", "second_crt", "empty_dir", "nested", "keydir", "crtdir", "dotcrt")
+	kind := g.pick("valid", "expired_lt_grace", "expired_ge_grace", "expired_ge_grace", "malformed", "crt_only", "key_only", "foreign", "second_crt", "empty_dir", "nested", "keydir", "crtdir", "dotcrt",
+		"bundle", "bundle", "bundle")
 	hist("site=" + kind)
 	switch kind {
 	case "valid", "expired_lt_grace", "expired_ge_grace":
-		add(base+".crt", "cert", g.certOff(kind, grace), "", kind)
+		off := g.certOff(kind, grace)
+		it := c18Item{Key: base + ".crt", Kind: "cert", Off: off, Why: kind}
+		switch g.r.Intn(6) {
+		case 0:
+			if kind == "valid" { // not valid YET: NotBefore in an hour, NotAfter far away -- not expired
+				it.Off, it.Off2 = 90*86400, 3600
+				hist("cert_notbefore=future")
+			}
+		case 1: // issued long ago (a 10-year certificate)
+			it.Off2 = off - 3650*86400
+			hist("cert_notbefore=10y")
+		}
+		*items = append(*items, it)
 		add(base+".key", "raw", 0, "@key", "")
-		add(base+".json", "raw", 0, `{"sans":["`+site+`"]}`, "")
+		// the metadata may say anything (ARI window long past, "replaced"): only the certificate's own expiry counts
+		add(base+".json", "raw", 0, g.pick(`{"sans":["`+site+`"]}`, `{"sans":["`+site+`"]}`,
+			`{"sans":["`+site+`"],"issuer_data":{"renewal_info":{"suggestedWindow":{"start":"2020-01-01T00:00:00Z","end":"2020-01-02T00:00:00Z"},"_selectedTime":"2020-01-01T12:00:00Z"},"replaced":true}}`,
+			`{"sans":["other.example"],"issuer_data":{"url":"https://ca.example/cert/1","not_after":"2001-01-01T00:00:00Z"}}`), "")
+	case "bundle":
+		// a .crt with several PEM blocks: only the first one -- the leaf, as certmagic stores it -- decides. The chain
+		// may hold an intermediate that expired long ago (old cross-sign kept for compatibility) or expires before the
+		// leaf; the leaf may come second; there may be other blocks or text
+		layout := g.pick("leaf+int", "leaf+int", "leaf+int", "leaf+int+int", "int+leaf", "leaf+key", "text+leaf", "key+leaf")
+		gs := grace / 1e9
+		leafClass := g.pick("valid", "valid", "expired_lt_grace", "expired_ge_grace")
+		off := g.certOff(leafClass, grace)
+		var off2 int64
+		switch g.r.Intn(3) {
+		case 0: // expired for at least the grace period
+			off2 = -gs - []int64{10, 86400, 400 * 86400}[g.r.Intn(3)]
+		case 1: // expires before a valid leaf, or is expired for less than the grace period
+			off2 = off - []int64{2, 3600}[g.r.Intn(2)]
+			if off2 <= -gs {
+				off2 = -gs + 3
+			}
+		case 2:
+			off2 = 5 * 365 * 86400
+		}
+		if layout == "int+leaf" {
+			// the first block decides: keep it unambiguous -- a valid intermediate in front of a leaf of any class
+			if off2 <= 0 {
+				off2 = 5 * 365 * 86400
+			}
+		}
+		hist("bundle=" + layout)
+		*items = append(*items, c18Item{Key: base + ".crt", Kind: "bundle", Off: off, Off2: off2, Text: layout, Why: "bundle"})
+		add(base+".key", "raw", 0, "@key", "")
+		add(base+".json", "raw", 0, `{}`, "")
 	case "malformed":
 		add(base+".crt", "raw", 0, g.pick("garbage", "", "@wrongpem", "@badder", "@key"), "malformed")
 		add(base+".key", "raw", 0, "@key", "")
@@ -1261,10 +1384,20 @@ func (g *c18Gen) spec(hist func(string)) c18Spec {
 		run.Interval = hour
 	case "recent":
 		run.Interval = 2 * hour
-		add("last_clean.json", "lastclean", -[]int64{3, 3600, 7190}[g.r.Intn(3)], "prev")
+		if g.r.Intn(3) == 0 { // other entries in the file say "long ago": only "tls" counts
+			items = append(items, c18Item{Key: "last_clean.json", Kind: "lastclean_multi", Off: -[]int64{3, 3600}[g.r.Intn(2)], Off2: -400 * 86400, Text: "prev"})
+			hist("last_clean_multi=recent")
+		} else {
+			add("last_clean.json", "lastclean", -[]int64{3, 3600, 7190}[g.r.Intn(3)], "prev")
+		}
 	case "old":
 		run.Interval = hour
-		add("last_clean.json", "lastclean", -[]int64{3610, 86400, 3 * 365 * 86400}[g.r.Intn(3)], "prev")
+		if g.r.Intn(3) == 0 { // other entries in the file are recent: only "tls" counts
+			items = append(items, c18Item{Key: "last_clean.json", Kind: "lastclean_multi", Off: -[]int64{3610, 86400}[g.r.Intn(2)], Off2: -5, Text: "prev"})
+			hist("last_clean_multi=old")
+		} else {
+			add("last_clean.json", "lastclean", -[]int64{3610, 86400, 3 * 365 * 86400}[g.r.Intn(3)], "prev")
+		}
 	case "future":
 		run.Interval = hour
 		add("last_clean.json", "lastclean", 600, "prev")
@@ -1332,10 +1465,10 @@ func (g *c18Gen) spec(hist func(string)) c18Spec {
 		kind := g.pick("fresh", "fresh", "expired", "expired", "corrupt", "nonext", "dir", "certbytes")
 		hist("staple=" + kind)
 		switch kind {
-		case "fresh":
-			add(k, "staple", []int64{4, 3600, 7 * 86400}[g.r.Intn(3)], "")
+		case "fresh": // whatever else the response says (revoked, unknown, produced long ago or "in the future")
+			add(k, "staple", []int64{4, 3600, 7 * 86400}[g.r.Intn(3)], g.pick("", "", "revoked", "unknown", "recent", "future_this", "withcert"))
 		case "expired":
-			add(k, "staple", -[]int64{4, 3600, 400 * 86400}[g.r.Intn(3)], "")
+			add(k, "staple", -[]int64{4, 3600, 400 * 86400}[g.r.Intn(3)], g.pick("", "", "revoked", "unknown", "recent", "withcert"))
 		case "corrupt":
 			add(k, "raw", 0, g.pick("garbage", "", "@truncstaple", "@key"))
 		case "nonext":
@@ -1680,6 +1813,31 @@ func c18Corpus() []struct {
 			spec  c18Spec
 		}{"corpus_record_effect_then_error", c18Spec{Backend: "fs", Items: one, Runs: []c18Run{r3, r4}}})
 	}
+	// certificate files with several PEM blocks: the leaf (first block) decides, whatever else the file holds. The sites:
+	// valid leaf + intermediate expired 400 d ago (must stay), valid leaf + intermediate that expires before it (stays),
+	// valid intermediate first + long-expired leaf second (the first block decides: stays), long-expired leaf + valid
+	// intermediate + key block + text (goes), valid leaf with two old intermediates (stays)
+	for _, be := range []string{"fs", "mem"} {
+		bsite := func(site, layout string, off, off2 int64) []c18Item {
+			b := "certificates/iss/" + site + "/" + site
+			return []c18Item{{Key: b + ".crt", Kind: "bundle", Off: off, Off2: off2, Text: layout},
+				{Key: b + ".key", Kind: "raw", Text: "@key"}, {Key: b + ".json", Kind: "raw", Text: "{}"}}
+		}
+		var its []c18Item
+		its = append(its, bsite("a-oldchain.example", "leaf+int", 60*day, -400*day)...)
+		its = append(its, bsite("b-shortchain.example", "leaf+int", 60*day, 10*day)...)
+		its = append(its, bsite("c-swapped.example", "int+leaf", -400*day, 900*day)...)
+		its = append(its, bsite("d-dead.example", "leaf+key", -400*day, 900*day)...)
+		its = append(its, bsite("e-twoold.example", "leaf+int+int", 30*day, -40*day)...)
+		its = append(its, bsite("f-text.example", "text+leaf", 30*day, -40*day)...)
+		for _, gr := range []int64{0, 30 * day * 1e9} {
+			r := c18Run{Certs: true, OCSP: true, Grace: gr, Cancel: -1, Inst: "corpus"}
+			out = append(out, struct {
+				class string
+				spec  c18Spec
+			}{"corpus_bundles", c18Spec{Backend: be, Items: its, Runs: []c18Run{r}}})
+		}
+	}
 	// a cleaner killed while it holds the lock (FileStorage): run 1 dies when its call 6 begins (X.crt deleted, X.key and
 	// X.json not yet); its lock file goes stale; run 2 removes the stale lock and cleans what it finds (the orphans stay:
 	// nothing says they are expired). Calls of run 1: 0 Lock, 1 List certificates, 2 List iss, 3 List site, 4 Load crt,
@@ -1774,11 +1932,26 @@ func runC18(tier string, seed int64, outdir string, replay string) error {
 			}
 			c := c18Classify(n.Val)
 			bad := false
+			// expected NotAfter of the deciding (first) certificate: x509 times have second precision
+			want := func(off int64) *big.Int {
+				return c18UnixNs(ex.started.Add(time.Duration(off) * time.Second).Truncate(time.Second))
+			}
 			switch it.Kind {
+			case "bundle":
+				switch it.Text {
+				case "key+leaf":
+					bad = c.Cert != nil
+				case "int+leaf":
+					bad = c.Cert == nil || c.Cert.Cmp(want(it.Off2)) != 0
+				default:
+					bad = c.Cert == nil || c.Cert.Cmp(want(it.Off)) != 0
+				}
 			case "cert":
-				bad = c.Cert == nil
+				bad = c.Cert == nil || c.Cert.Cmp(want(it.Off)) != 0
 			case "staple", "staple0":
 				bad = c.Staple == nil || c.Cert != nil
+			case "lastclean_multi":
+				bad = c.Clean == nil || c.Clean.Cmp(c18UnixNs(ex.started.Add(time.Duration(it.Off)*time.Second))) != 0
 			case "lastclean", "lastclean_notls":
 				bad = c.Clean == nil
 			case "raw":
